@@ -254,7 +254,8 @@ def gen_game(rng, kind=None, stratum=None, ties=None, n=None, maxsize=8, encode=
         tau = rng.choice([0.0, 0.0, 1e-9 * beta])
         teams = [[(rng.uniform(-2, 2) * beta, 1e-4 * beta * rng.uniform(1.0, 3.0))],
                  [(rng.uniform(-20, -14) * beta / k_, rng.uniform(0.5, 3.0) * beta) for k_ in [rng.randint(1, 3)] for _ in range(k_)]]
-        if rng.random() < 0.4:
+        want = n if n is not None else (3 if rng.random() < 0.4 else 2)
+        while len(teams) < want:
             teams.append([(rng.uniform(-20, -10) * beta, rng.uniform(0.5, 3.0) * beta)])
         if rng.random() < 0.5:
             teams.reverse()
